@@ -92,6 +92,8 @@ structure DState where
   flagged : Bool := false
   /-- the observed collection is a second derived collection chained behind the first -/
   chain   : Bool := false
+  /-- `krt.NewSingleton` case -/
+  single1 : Bool := false
   /-- where the transformation fetches from: "" the static collection `sec`; "sd" a derived copy of
       it; "sj" `JoinCollection[sec, sec2]`; "s2" fetches at odd positions go to `sec2` -/
   secmode : String := ""
@@ -143,7 +145,9 @@ def renderPairs (l : List (String × String)) : String := ",".intercalate (l.map
 def Obj.token (o : Obj) : String :=
   ";".intercalate [o.ns, o.name, renderPairs o.labels, renderPairs o.sel, ",".intercalate o.outs, o.ref, o.val]
 
-def primContents (d : DState) : FinMap := d.prim.map (fun o => (o.key, o.token))
+/-- contents of the primary static collection (the constant input of a singleton is not in it) -/
+def primContents (d : DState) : FinMap :=
+  ((if d.single1 then d.prim.filter (fun o => o.key != "n1/s") else d.prim)).map (fun o => (o.key, o.token))
 
 /-! ### answers -/
 
@@ -206,6 +210,10 @@ def answer (d : DState) (u : Bool) (body : DState → String) : String :=
   | some g => g
   | none => if u && !d.flagged then "not-flagged" else body d
 
+/-- the constant input of the singleton cases (`case ... single1`) -/
+def singletonInput : Obj :=
+  { ns := "n1", name := "s", labels := [("l1", "1")], sel := [("l1", "1")], ref := "n1/x", val := "v1" }
+
 def stepD (d : DState) (toks : List String) : DState × String :=
   match toks with
   | "case" :: _ :: stream :: t :: rest =>
@@ -214,7 +222,10 @@ def stepD (d : DState) (toks : List String) : DState × String :=
     | some T =>
       let sm := if rest.contains "sd" then "sd" else if rest.contains "sj" then "sj"
         else if rest.contains "s2" then "s2" else ""
-      ({ T := T, stream := stream, flagged := rest.contains "f6", chain := rest.contains "chain", secmode := sm }, "ok")
+      -- `krt.NewSingleton`: the transformation of one constant (dummy) input
+      let prim0 : List Obj := if rest.contains "single1" then [singletonInput] else []
+      ({ T := T, stream := stream, flagged := rest.contains "f6", chain := rest.contains "chain", secmode := sm,
+         prim := prim0, single1 := rest.contains "single1" }, "ok")
   | ["p.set", o] =>
     match parseObj o with
     | none => (d, "bad-op")
